@@ -1,7 +1,7 @@
 SPECIFICATION Spec
-CONSTANTS MaxOps = 4
- MaxItems = 2
- MaxSteps = 2
+CONSTANTS MaxOps = 5
+ MaxItems = 1
+ MaxSteps = 3
  AsCoded = FALSE
  Record = FALSE
  EmitAll = FALSE
